@@ -562,8 +562,8 @@ func eventTypeCases(fn *ssa.Function) map[string]bool {
 		if bf.A.Kind != "const" || bf.A.C.Value == nil || bf.A.C.Value.Kind() != constant.String {
 			continue
 		}
-		_, name, ok := fieldLoad(bf.A.X)
-		if ok && name == "Type" {
+		base, name, ok := fieldLoad(bf.A.X)
+		if ok && name == "Type" && namedTypeName(base.Type()) == "ergo.Event" {
 			out[constant.StringVal(bf.A.C.Value)] = true
 		}
 	}
